@@ -45,7 +45,7 @@ func (fr *Frame) call(in ssa.Instruction, cc *ssa.CallCommon) []Term {
 		recv := fr.val(cc.Value)
 		fr.oblige("nil", "method "+cc.Method.Name()+" called on non-nil interface", in, not(eq(recv, "0")))
 		// unique in-package implementation of an in-package interface with unexported methods
-		if impl := e.uniqueImpl(cc); impl != nil {
+		if impl := e.uniqueImpl(cc); impl != nil && !fr.x.opaque(cc.Method.Name()) {
 			// receiver: unbox the interface value to the concrete pointer
 			rt := impl.Signature.Recv().Type()
 			args := []Term{fr.unboxTo(rt, recv)}
@@ -825,4 +825,17 @@ func (fr *Frame) appendStructs(el types.Type, s, src, n Term, fits Term, freshRe
 	saved := fr.cur.reach
 	_ = saved
 	fr.copyStruct(el, srcRef, baseInfo{"", dstRef, nil})
+}
+
+func (x *Exec) opaque(method string) bool {
+	ct := x.e.cf.Funcs[x.top.RelString(x.e.tp)]
+	if ct == nil {
+		return false
+	}
+	for _, m := range ct.Opaque {
+		if m == method {
+			return true
+		}
+	}
+	return false
 }
